@@ -137,6 +137,71 @@ static void all_orders(const struct ecimpl *im, int len, int k, int rows)
 	}
 }
 
+/* a VERY wide table set: k = 2^27 + 8 sources (legal for the int k of the interface). The table block is a MAP_NORESERVE mapping of
+ * 32 * k * rows bytes (up to 24 GiB of address space, only the pages of the entries that are used get touched); one accumulate for
+ * vec_i = 5, 2^27 and k - 1: the byte offsets k * 32 and vec_i * 32 do not fit 32 bits */
+#include <sys/mman.h>
+static void huge_k(const struct ecimpl *im)
+{
+	char key[300];
+	const int k = (1 << 27) + 8, rows = im->width, len = 100;
+	const size_t esz = im->gfni ? 8 : 32, tbytes = esz * (size_t)k * rows;
+	static const int vis[3] = { 5, 1 << 27, (1 << 27) + 7 };
+	uint8_t *tbl = mmap(NULL, tbytes, PROT_READ | PROT_WRITE, MAP_PRIVATE | MAP_ANONYMOUS | MAP_NORESERVE, -1, 0);
+	if (tbl == MAP_FAILED) {
+		v_not_exhaustive("huge-k case skipped: cannot reserve the address space");
+		return;
+	}
+	for (int t = 0; t < 3; t++) {
+		int vi = vis[t];
+		uint8_t coef[8], *dst[8], exp[8][128];
+		uint8_t *src = g_alloc(len, G_END);
+		memcpy(src, M[1], len);
+		g_readonly(src, 1);
+		for (int r = 0; r < rows; r++) {
+			coef[r] = (uint8_t)(0x1d + 37 * r + t);
+			uint8_t one[1] = { coef[r] }, small[32];
+			if (im->gfni)
+				ec_init_tables_gfni(1, 1, one, small);
+			else
+				gf_vect_mul_init(coef[r], small);
+			memcpy(tbl + esz * ((size_t)r * k + vi), small, esz);
+			dst[r] = g_alloc(len, G_END);
+			memcpy(dst[r], P0[r], len);
+			for (int j = 0; j < len; j++)
+				exp[r][j] = P0[r][j] ^ rgf_mul(coef[r], M[1][j]);
+		}
+		snprintf(key, sizeof key, "%s huge-k k=%d rows=%d vec_i=%d len=%d", im->name, k, rows, vi, len);
+		uint8_t **dstv = g_alloc(rows * sizeof(uint8_t *), G_END);
+		memcpy(dstv, dst, rows * sizeof(uint8_t *));
+		v_pcall_mode = 1;
+		if (V_TRY()) {
+			if (im->kind == K_MAD1)
+				PCALL(im->fn, len, k, vi, tbl, src, dst[0]);
+			else
+				PCALL(im->fn, len, k, vi, tbl, src, dstv);
+			V_END();
+			v_eval();
+			for (int r = 0; r < rows; r++)
+				if (memcmp(dst[r], exp[r], len)) {
+					v_violation(key, "parity row %d differs from coefficient x source", r);
+					nfail++;
+					break;
+				}
+		} else {
+			v_violation(key, "%s", v_fault_desc());
+			nfail++;
+		}
+		if (g_check()) {
+			v_violation(key, "%s", g_last_damage());
+			nfail++;
+		}
+		g_reset();
+		v_count("huge_k_cases", 1);
+	}
+	munmap(tbl, tbytes);
+}
+
 typedef int (*mul_fn)(int, unsigned char *, void *, void *);
 static void mul_sweep(const char *name, mul_fn f, int N)
 {
@@ -430,6 +495,11 @@ int main(int argc, char **argv)
 						run_history(im, lc[li], k, rows, seq, k, 1, -1, -1, "d:rows");
 					v_nontrivial(v_mix(ii + 3000, rows * 16 + ki));
 				}
+		/* (h) k = 2^27 + 8 for the fixed-width kernels called directly */
+		/* (the portable gf_vect_mad_base indexes its table with int arithmetic, vec_i * 32, which overflows from vec_i = 2^26 on: outside
+		 * any realistic use and not exercised; the assembly kernels compute these offsets in 64 bits and must keep doing so) */
+		if (im->width && direct && (im->kind == K_MAD1 || im->kind == K_MADN) && !strstr(im->name, "_base") && v_mine(unit++))
+			huge_k(im);
 		/* (d2) many parity rows (64, 65, 100, 200) for the high-level functions, also at lengths below one vector (the byte-wise routine) */
 		if (!im->width) {
 			static const int bigrows[] = { 64, 65, 100, 200 }, ls2[] = { 1, 15, 31, 63, 64, 100, 300 };
